@@ -9,6 +9,7 @@ open AbtemVerif AbtemVerif.Proto AbtemVerif.Prism AbtemVerif.Gen.Prism
    mincrop <w0> <w1> <px,py;px,py;…>                -> ok <cc0> <cc1> <s0> <s1> <c0,c1;…>
    windows <n0> <n1> <w0> <w1> <px,py;…>            -> ok <flat window>;<flat window>… | err <kind>
    expect <n0> <n1> <w0> <w1> <px,py>               -> ok <flat window>
+   reducek <n0> <n1> <w0> <w1> <K> <px,py;…> <c,c,…;…> -> ok <flat window>;… : planes k = iota + 1000·k, integer coefficients per position
    phase <gx|gy|cu|px|py> <pi> <args…>              -> ok <rat>
    amp <interp> <npix>                              -> ok <rat>
    eager <mean T|F> <isWaves T|F> <m> <r;r;…>       -> ok <rows of the measurement allocated and filled by the eager path> -/
@@ -56,6 +57,15 @@ def handle : List String → String
       | .ok ws => "ok " ++ ";".intercalate (ws.map flat)
       | .error e => s!"err {e}"
     | _, _, _, _, _ => "bad-op"
+  | ["reducek", n0, n1, w0, w1, K, ps, cs] =>
+    match parseNat? n0, parseNat? n1, parseNat? w0, parseNat? w1, parseNat? K, pairs? ps, parseListList? parseInt? cs with
+    | some n0, some n1, some w0, some w1, some K, some ps, some cs =>
+      if n0 = 0 ∨ n1 = 0 ∨ ps.isEmpty ∨ cs.length ≠ ps.length ∨ cs.any (fun c => c.length ≠ K) then "bad-op" else
+      let planes : List (Nat → Nat → Int) := (List.range K).map fun (k : Nat) => fun i j => iota n1 i j + 1000 * (k : Int)
+      match reduceToWaves planes n0 n1 (w0, w1) ps cs with
+      | .ok ws => "ok " ++ ";".intercalate (ws.map flat)
+      | .error e => s!"err {e}"
+    | _, _, _, _, _, _, _ => "bad-op"
   | ["expect", n0, n1, w0, w1, ps] =>
     match parseNat? n0, parseNat? n1, parseNat? w0, parseNat? w1, pairs? ps with
     | some n0, some n1, some w0, some w1, some [p] =>
